@@ -111,6 +111,7 @@ theorem handlerBody_frm {dlv : Dlv} (h : DFrm dlv) (b : Blk) (d : Nat) (s : St) 
     | exact Frm.refl s
     | exact runActs_frm h ..
     | exact andThen_frm (setOutput_frm h ..) (Frm.refl _)
+    | exact andThen_frm (sendEdges_frm h ..) (Frm.refl _)
 
 theorem upd_init_frm (s : St) (d : Nat) (v : InitSt) (hv : v ≠ .pending) :
     Frm s { s with init := upd s.init d v } := by
@@ -124,6 +125,7 @@ theorem initRegular_frm {dlv : Dlv} (h : DFrm dlv) (b : Blk) (d : Nat) (s : St) 
   unfold initRegular
   split
   · exact runActs_frm h ..
+  · exact setOutput_frm h ..
   · exact Frm.refl s
 
 theorem initFromValue_frm {dlv : Dlv} (h : DFrm dlv) (b : Blk) (d : Nat) (s : St) :
@@ -261,12 +263,14 @@ theorem handlerBody_P (hp : StPred P) (h : DP P dlv) (b : Blk) (d : Nat) (s : St
     | exact hs
     | exact runActs_P hp h _ _ _ _ hs
     | exact andThen_P (setOutput_P hp h _ _ _ _ hs) (fun h => h)
+    | exact andThen_P (sendEdges_P h _ _ _ _ hs) (fun h => h)
 
 theorem initRegular_P (hp : StPred P) (h : DP P dlv) (b : Blk) (d : Nat) (s : St) (hs : P s) :
     P (initRegular dlv b d s).1 := by
   unfold initRegular
   split
   · exact runActs_P hp h _ _ _ _ hs
+  · exact setOutput_P hp h _ _ _ _ hs
   · exact hs
 
 theorem initFromValue_P (hp : StPred P) (h : DP P dlv) (b : Blk) (d : Nat) (s : St) (hs : P s) :
@@ -480,6 +484,7 @@ theorem initRegular_Q (hf : DFrm dlv) (hq : DQ dlv) (b : Blk) (d : Nat) (stk : L
   unfold initRegular
   split
   · exact runActs_Q hf hq _ _ _ _ _ hi hs
+  · exact setOutput_Q hf hq _ _ _ _ _ hi hs
   · exact QS.leaf _ _ _ (by simp)
 
 theorem initFromValue_Q (hf : DFrm dlv) (hq : DQ dlv) (b : Blk) (d : Nat) (stk : List Frame) (s : St)
@@ -487,6 +492,7 @@ theorem initFromValue_Q (hf : DFrm dlv) (hq : DQ dlv) (b : Blk) (d : Nat) (stk :
   unfold initFromValue
   split
   · split
+    · exact QS.leaf _ _ _ (by simp)
     · exact QS.leaf _ _ _ (by simp)
     · rw [← hs]; exact hq _ _ _ _ hi
     · exact setOutput_Q hf hq _ _ _ _ _ hi hs
@@ -659,12 +665,18 @@ theorem handlerBody_G (hk : KClosed K) (hf : DFrm dlv) (hg : DG K dlv) (b : Blk)
         all_goals simp
       exact NoOOF.leaf _ _ (by simpa using this)
     · exact andThen_G (setOutput_G hk hf hg _ _ _ _ h) (NoOOF.leaf _ _ (by simp))
+  · split
+    · exact NoOOF.leaf _ _ (by simp)
+    · split
+      · exact andThen_G (sendEdges_G hk hf hg _ _ _ _ h) (NoOOF.leaf _ _ (by simp))
+      · exact andThen_G (sendEdges_G hk hf hg _ _ _ _ h) (NoOOF.leaf _ _ (by simp))
 
 theorem initRegular_G (hk : KClosed K) (hf : DFrm dlv) (hg : DG K dlv) (b : Blk) (d : Nat) (s : St)
     (h : K s) : NoOOF (initRegular dlv b d s) := by
   unfold initRegular
   split
   · exact runActs_G hk hf hg _ _ _ _ h
+  · exact setOutput_G hk hf hg _ _ _ _ h
   · exact NoOOF.leaf _ _ (by simp)
 
 theorem initFromValue_G (hk : KClosed K) (hf : DFrm dlv) (hg : DG K dlv) (b : Blk) (d : Nat) (s : St)
@@ -672,6 +684,7 @@ theorem initFromValue_G (hk : KClosed K) (hf : DFrm dlv) (hg : DG K dlv) (b : Bl
   unfold initFromValue
   split
   · split
+    · exact NoOOF.leaf _ _ (by simp)
     · exact NoOOF.leaf _ _ (by simp)
     · exact hg _ _ _ _ h
     · exact setOutput_G hk hf hg _ _ _ _ h
